@@ -41,6 +41,17 @@ struct Env {
     scratch: String,
     lo: i64,
     hi: i64,
+    /// loopback port of the same router served over TCP (for the WebSocket interface); None if no socket could be bound
+    ws_port: Option<u16>,
+    _server: Option<tokio::task::JoinHandle<()>>,
+}
+
+impl Drop for Env {
+    fn drop(&mut self) {
+        if let Some(h) = self._server.take() {
+            h.abort();
+        }
+    }
 }
 
 async fn new_env(rng: &mut Rng, scratch: &str) -> Result<Env, String> {
@@ -70,7 +81,17 @@ async fn new_env(rng: &mut Rng, scratch: &str) -> Result<Env, String> {
     let router = cardinalsin::api::build_http_router(ing.clone(), node.clone());
     let chunk_paths = meta.list_chunks().await.map_err(|e| e.to_string())?.into_iter().map(|c| c.chunk_path).collect();
     std::fs::create_dir_all(scratch).ok();
-    Ok(Env { flight: FlightSqlQueryService::new(node.clone()), store, meta, node, router, chunk_paths, scratch: scratch.to_string(), lo: base - 1, hi: base + 10_000_000 })
+    let (ws_port, server) = match tokio::net::TcpListener::bind("127.0.0.1:0").await {
+        Ok(l) => {
+            let port = l.local_addr().ok().map(|a| a.port());
+            let r2 = router.clone();
+            (port, Some(tokio::spawn(async move {
+                let _ = axum::serve(l, r2).await;
+            })))
+        }
+        Err(_) => (None, None),
+    };
+    Ok(Env { flight: FlightSqlQueryService::new(node.clone()), store, meta, node, router, chunk_paths, scratch: scratch.to_string(), lo: base - 1, hi: base + 10_000_000, ws_port, _server: server })
 }
 
 #[derive(PartialEq, Debug, Clone)]
@@ -204,7 +225,12 @@ pub fn run(ctx: &Ctx) -> Outcome {
 
 async fn one_case(ctx: &Ctx, out: &mut Outcome, rng: &mut Rng, idx: u64, env: &Env) {
     let (sql, kind, must_reject) = gen_statement(rng, env);
-    let iface = ["QueryNode::query", "http-post", "http-get", "flight-execute", "flight-info", "flight-prepare", "flight-do_get", "query_stream", "prom-query", "prom-series"][rng.usize(10)];
+    const IFACES: [&str; 18] = [
+        "QueryNode::query", "http-post", "http-get", "flight-execute", "flight-info", "flight-prepare", "flight-do_get", "query_stream", "prom-query", "prom-series",
+        "prom-query-post", "prom-range", "prom-range-post", "prom-labels", "prom-labels-post", "prom-label-values", "prom-series-post", "websocket",
+    ];
+    let iface = IFACES[rng.usize(IFACES.len())];
+    let pct = |t: &str| -> String { t.bytes().map(|b| if b.is_ascii_alphanumeric() { (b as char).to_string() } else { format!("%{:02X}", b) }).collect() };
     let before = env.snapshot().await;
     // submit
     let accepted: Result<bool, String> = match iface {
@@ -226,13 +252,75 @@ async fn one_case(ctx: &Ctx, out: &mut Outcome, rng: &mut Rng, idx: u64, env: &E
             // needs a connected broadcast: use a throw-away channel
             Ok(env.node.query_stream(&sql).await.is_ok())
         }
-        "prom-query" | _ => {
-            // hostile matcher: the statement text is smuggled into a label value / metric selector
-            let promql = match rng.below(3) {
+        "websocket" => {
+            // the statement as the query of a streaming request over a real WebSocket (historical part only)
+            use futures::SinkExt;
+            use tokio_tungstenite::tungstenite::Message;
+            match env.ws_port {
+                None => Err("no loopback socket".to_string()),
+                Some(port) => match tokio_tungstenite::connect_async(format!("ws://127.0.0.1:{}/api/v1/stream", port)).await {
+                    Err(e) => Err(format!("ws connect: {e}")),
+                    Ok((mut ws, _)) => {
+                        let _ = ws.send(Message::Text(json!({"query": sql, "live": false}).to_string())).await;
+                        let mut ok = true;
+                        // the handler answers data* then "end", or one "error"
+                        loop {
+                            match tokio::time::timeout(std::time::Duration::from_secs(60), ws.next()).await {
+                                Ok(Some(Ok(Message::Text(t)))) => {
+                                    if t.contains("\"type\":\"error\"") {
+                                        ok = false;
+                                        break;
+                                    }
+                                    if t.contains("\"type\":\"end\"") {
+                                        break;
+                                    }
+                                }
+                                Ok(Some(Ok(_))) => continue,
+                                _ => break,
+                            }
+                        }
+                        Ok(ok)
+                    }
+                },
+            }
+        }
+        _ => {
+            // hostile matcher: the statement text is smuggled into a label value / metric selector / label
+            // name / grouping list of the Prometheus-compatible endpoints
+            let promql = match rng.below(5) {
                 0 => format!("cpu{{host=\"x'; {} --\"}}", sql.replace('"', "")),
                 1 => format!("cpu{{host=~\"'); {}; --\"}}", sql.replace('"', "")),
+                2 => format!("sum by (host\"; {}; --) (cpu)", sql.replace('"', "")),
+                3 => format!("cpu{{host\" = 'x'; {}; --=\"v\"}}", sql.replace('"', "")),
                 _ => format!("{{__name__=\"cpu' UNION ALL {} --\"}}", sql.replace('"', "")),
             };
+            let form = |pairs: &[(&str, String)]| -> String { pairs.iter().map(|(k, v)| format!("{}={}", pct(k), pct(v))).collect::<Vec<_>>().join("&") };
+            let get = |uri: String| axum::http::Request::builder().method("GET").uri(uri).body(Body::empty()).unwrap();
+            let post = |uri: &str, body: String| axum::http::Request::builder().method("POST").uri(uri).header("content-type", "application/x-www-form-urlencoded").body(Body::from(body)).unwrap();
+            let req = match iface {
+                "prom-query-post" => Some(post("/api/v1/query", form(&[("query", promql.clone())]))),
+                "prom-range" => Some(get(format!("/api/v1/query_range?{}", form(&[("query", promql.clone()), ("start", "1700000000".into()), ("end", "1700000600".into()), ("step", "60".into())])))),
+                "prom-range-post" => Some(post("/api/v1/query_range", form(&[("query", promql.clone()), ("start", "1700000000".into()), ("end", "1700000600".into()), ("step", "60".into())]))),
+                "prom-labels" => Some(get(format!("/api/v1/labels?{}", form(&[("match[]", promql.clone())])))),
+                "prom-labels-post" => Some(post("/api/v1/labels", form(&[("match[]", promql.clone())]))),
+                "prom-label-values" => {
+                    // hostile label name in the path, hostile matcher in the query string
+                    let name = match rng.below(3) {
+                        0 => format!("host\"; {}; --", sql.replace('"', "")),
+                        1 => format!("host FROM metrics; {}; --", sql),
+                        _ => "host".to_string(),
+                    };
+                    Some(get(format!("/api/v1/label/{}/values?{}", pct(&name), form(&[("match[]", promql.clone())]))))
+                }
+                "prom-series-post" => Some(post("/api/v1/series", form(&[("match[]", promql.clone())]))),
+                _ => None,
+            };
+            if let Some(req) = req {
+                // Prometheus endpoints answer 200 with status=error; acceptance is not judged here, only effects
+                let r = env.router.clone().oneshot(req).await.map(|_| false).map_err(|e| e.to_string());
+                let after = env.snapshot().await;
+                return finish_case(ctx, out, idx, env, &sql, kind, must_reject, iface, before, after, r);
+            }
             let enc: String = promql.bytes().map(|b| if b.is_ascii_alphanumeric() { (b as char).to_string() } else { format!("%{:02X}", b) }).collect();
             let uri = if iface == "prom-query" { format!("/api/v1/query?query={}", enc) } else { format!("/api/v1/series?match[]={}", enc) };
             let req = axum::http::Request::builder().method("GET").uri(uri).body(Body::empty()).unwrap();
@@ -241,6 +329,12 @@ async fn one_case(ctx: &Ctx, out: &mut Outcome, rng: &mut Rng, idx: u64, env: &E
         }
     };
     let after = env.snapshot().await;
+    finish_case(ctx, out, idx, env, &sql, kind, must_reject, iface, before, after, accepted)
+}
+
+#[allow(clippy::too_many_arguments)]
+fn finish_case(ctx: &Ctx, out: &mut Outcome, idx: u64, _env: &Env, sql: &str, kind: &'static str, must_reject: bool, iface: &str, before: Snapshot, after: Snapshot, accepted: Result<bool, String>) {
+    let sql = sql.to_string();
     out.eval();
     out.count(&format!("interface.{}", iface), 1);
     out.count(&format!("kind.{}", kind), 1);
